@@ -173,6 +173,22 @@ pub fn family(name: &str, tier: Tier) -> Vec<Case> {
             s.client_read_pause_us = 1000;
             s.server_mode.small_read = Some(300);
             add(s, if quick { 1 } else { 2 });
+            // the third receive API: `receive_vectored` with fewer chunk slots than the stream has
+            // buffered slots; its `is_open` flag is the application's only end-of-stream signal
+            let mut s = Scenario::base("data/echo-20000-vectored-2-slots");
+            s.tasks = vec![echo_task(20_000, 0), uni_task(9000, 3000)];
+            s.vectored_slots = Some(2);
+            s.server_mode.vectored_slots = Some(2);
+            s.server_mode.read_delay_ms = 0;
+            s.client_read_pause_us = 20_000;
+            add(s, 1);
+            let mut s = Scenario::base("data/echo-5000-vectored-1-slot-tls");
+            s.tls = Tls::S2n;
+            s.tasks = vec![echo_task(5000, 700)];
+            s.vectored_slots = Some(1);
+            s.server_mode.vectored_slots = Some(1);
+            s.server_mode.read_pause_us = 30_000;
+            add(s, 1);
             let mut s = Scenario::base("data/echo-12289-windows-1500-3000");
             s.tasks = vec![echo_task(12_289, 0)];
             s.client.stream_window = Some(1500);
@@ -372,6 +388,22 @@ pub fn family(name: &str, tier: Tier) -> Vec<Case> {
                     vec![Op::OpenUni, Op::Write(100, 0), Op::Reset(5), Op::Sleep(200)],
                 ];
                 out.push(Case { scn: s, menu: menu_null(), k: 1, extra: vec![], expect: Expect::Nothing, injects: vec![], differential: false, first_index: 0, adv: None, last_index: u32::MAX });
+            }
+            // stream data windows that differ per kind of stream and per role (initial_max_stream_data_
+            // bidi_local / bidi_remote / uni all pairwise different, on both sides): a sender must take the
+            // limit of the right kind from the peer's parameters and a receiver must enforce / re-advertise
+            // the window of the right kind - both orderings of (local, remote), so that a mix-up of the
+            // perspectives shows as an overrun in one of them and as a stall / wrong credit in the other
+            for (name, srv, cli) in [("a", (700u64, 2500u64, 1300u64), (2100u64, 900u64, 1600u64)), ("b", (2500, 700, 1900), (900, 2100, 1100))] {
+                let mut s = Scenario::base(&format!("flow/asym-stream-windows-{}", name));
+                s.server.win_kinds = Some(srv);
+                s.client.win_kinds = Some(cli);
+                s.tasks = vec![echo_task(6000, 0), uni_task(4000, 0)];
+                s.server_mode.push_streams = 2;
+                s.server_mode.push_size = 3000;
+                s.client_accepts_uni = true;
+                s.horizon_ms = 120_000;
+                out.push(Case { scn: s, menu: menu_null(), k: 1, extra: vec![], expect: Expect::Complete, injects: vec![], differential: false, first_index: 0, adv: None, last_index: u32::MAX });
             }
             // stream-count limits that differ per stream type (and per role): the opener must respect the
             // limit of the type it opens, not the other one
